@@ -40,6 +40,7 @@ def check(repo, col, tier):
     col.rule("R-C18-tracer", "what integrate stores on the module is computed outside of tracing (no leaked tracer)", 2)
     _tracer(repo, col)
     _state_arguments(repo, col)
+    _inplace_registry(repo, col)
 
 
 def _self(t: T) -> bool:
@@ -156,6 +157,20 @@ def _closures(repo, col):
 PROTOCOL = ("__deepcopy__", "__getstate__", "__setstate__", "__reduce__", "__reduce_ex__", "__getnewargs__", "__getnewargs_ex__")
 
 
+def _enumerated_state(m: ast.FunctionDef, e: ast.AST):
+    """the keys of a state that is written out key by key (`{"a": self.a, "b": self.b}`, possibly through a local): a set of names, else None"""
+    if isinstance(e, ast.Name):
+        asg = [n.value for n in ast.walk(m) if isinstance(n, ast.Assign) and any(isinstance(t, ast.Name) and t.id == e.id for t in n.targets)]
+        if len(asg) != 1:
+            return None
+        e = asg[0]
+    if isinstance(e, ast.Dict) and e.keys and all(isinstance(k, ast.Constant) and isinstance(k.value, str) for k in e.keys):
+        return {k.value for k in e.keys}
+    if isinstance(e, ast.Call) and isinstance(e.func, ast.Name) and e.func.id == "dict" and not e.args and e.keywords and all(k.arg for k in e.keywords):
+        return {k.arg for k in e.keywords}
+    return None
+
+
 def protocol_findings(cls_node: ast.ClassDef, late_attrs=()):
     """Findings (verdict, method node, construct, reason) for custom copy/pickle protocol methods of one class.
     verdict: 'ok' | 'bad' | 'unk'.  The default protocol (no method) deep-copies / pickles the complete
@@ -207,10 +222,18 @@ def protocol_findings(cls_node: ast.ClassDef, late_attrs=()):
                     shapes.append("state")
                 elif isinstance(v, ast.Call) and unparse(v.func) in ("super().__reduce__", "super().__reduce_ex__", "object.__reduce_ex__", "object.__reduce__"):
                     shapes.append("state")
+                elif isinstance(v, ast.Tuple) and len(v.elts) >= 3 and _enumerated_state(m, v.elts[2]) is not None:
+                    shapes.append("partial")
+                    partial_keys = _enumerated_state(m, v.elts[2])
                 else:
                     shapes.append("?")
             if shapes and all(s_ == "state" for s_ in shapes):
                 out.append(("ok", m, m.name, "the complete instance dictionary is the pickled state"))
+            elif "partial" in shapes and set(late_attrs) - set(partial_keys):
+                lost = sorted(set(late_attrs) - set(partial_keys))
+                out.append(("bad", m, m.name, f"`{unparse(rets[shapes.index('partial')])[:90]}` rebuilds the object through its constructor and restores only "
+                            f"{sorted(partial_keys)}: what the object acquired or edited after construction ({', '.join(lost[:5])}{', ...' if len(lost) > 5 else ''}) is lost -- "
+                            f"e.g. the `controlled_by_param` column a selection writes into its tables, which decides how make_trainable shares parameters"))
             elif "rebuild" in shapes and late_attrs:
                 ex_ = ", ".join(sorted(late_attrs)[:4])
                 out.append(("bad", m, m.name, f"`{unparse(rets[shapes.index('rebuild')])[:80]}` rebuilds the object by calling the constructor and carries no state: "
@@ -278,6 +301,12 @@ def _protocol(repo, col):
                                 for t_ in (n_.targets if isinstance(n_, ast.Assign) else [n_.target]):
                                     if isinstance(t_, ast.Attribute) and isinstance(t_.value, ast.Name) and t_.value.id == me_:
                                         late.add(t_.attr)
+                                    # ... and what is edited IN PLACE after construction: self.X[...] = v, self.X.loc[...] = v
+                                    b_ = t_
+                                    while isinstance(b_, (ast.Subscript, ast.Attribute)) and not (isinstance(b_, ast.Attribute) and isinstance(b_.value, ast.Name) and b_.value.id == me_):
+                                        b_ = b_.value
+                                    if b_ is not t_ and isinstance(b_, ast.Attribute) and isinstance(b_.value, ast.Name) and b_.value.id == me_:
+                                        late.add(b_.attr)
         fs = protocol_findings(ci.node, late)
         if not fs:
             col.ok(R, ci.file, f"{cname} keeps the default copy / pickle protocol", "complete instance dictionary is copied", func=cname, node=ci.node)
@@ -775,3 +804,39 @@ def _state_arguments(repo, col, R="R-C18-tracer"):
                     if t_.op == "param" and t_.name == p and (k_.arg in names or k_.arg in [x.arg for x in g.node.args.kwonlyargs]):
                         work.append((g, k_.arg))
     col.info["state_argument_sites_checked"] = n
+
+
+def _inplace_registry(repo, col, R="R-C18-share"):
+    """The arrays held in a module's registries (`groups`, `external_inds`, `indices_set_by_trainables`, ...) are shared objects: add_to_group
+    stores the view's own index array, a group made from a group view is a VIEW of the first group's memory, pandas hands out read-only
+    arrays.  pickle / deepcopy turn all of them into owned, writeable, independent arrays.  A method that edits such an array IN PLACE
+    (`inds[mask] += shift` on `np.asarray(entry)`, which does not copy) therefore behaves differently on a module and on its copy -- aliased
+    entries are shifted twice, read-only ones raise.  Registry entries are replaced, never written into."""
+    REG = {"groups", "external_inds", "externals", "indices_set_by_trainables", "trainable_params", "recordings"}
+    NOCOPY = {"asarray", "asanyarray", "atleast_1d", "ravel", "reshape", "view", "squeeze"}
+    n = 0
+    for cls_ in ("Module", "View", "Network", "Cell", "Branch", "Compartment"):
+        if cls_ not in repo.classes:
+            continue
+        for nm, fi in repo.cls(cls_).methods.items():
+            ex = idx.expander(repo, fi)
+            for s_ in ex.stores:
+                if s_.kind not in ("sub", "aug") or s_.base is None:
+                    continue
+                b = s_.base
+                while (b.op in ("mcall", "call") and b.name in NOCOPY and b.args):
+                    b = next((a_ for a_ in b.args if a_.op != "free"), b.args[0])
+                # an ELEMENT of a registry (not the registry itself, whose entries may be replaced)
+                if b.op not in ("sub", "elem", "item"):
+                    continue
+                reg = T.find(b, lambda x: x.op == "attr" and x.name in REG and T.find(x, lambda y: y.op == "param" and y.name == "self") is not None)
+                if reg is None:
+                    continue
+                if s_.kind == "aug" and not isinstance(getattr(s_.node, "target", None), ast.Subscript):
+                    continue   # `x += y` on a name rebinds for arrays only if ... (handled by the store of the result); only element writes here
+                n += 1
+                col.bad(R, fi, f"{cls_}.{nm}: entries of `{reg.name}` are replaced, not written into",
+                        f"`{unparse(s_.node)[:70]}` writes into an array that is (an alias of) an entry of `{reg.pretty()}`: `np.asarray` does not copy, the entry can "
+                        f"be shared with another group / a view's index array or be read-only; after pickle / deepcopy it is an owned writeable array, so the same "
+                        f"edit gives another result on the copy than on the original", node=s_.node)
+    col.ok(R, "jaxley/modules/base.py", "registry entries are replaced, never edited in place", f"{n} in-place writes into registry entries", func="Module") if n == 0 else None
